@@ -24,7 +24,7 @@ Definition gen_in_tree (t : tree) (f : path) : outcome str :=
   match t_get t f with
   | None => Err 40
   | Some c =>
-    generate join cfg all_pnames (fun m => m) (fun m => m)
+    generate join cfg all_pnames (fun m => m) (fun m => m) (fun m => m)
              scan_limit_parser_parse scan_limit_assembler_assemble (fsys_of_tree t) c
   end.
 
